@@ -152,7 +152,7 @@ func runRoots(c *lib.Ctx, p *pool, maxN int) {
 				ws[r.Range(2, n)] = true
 			}
 			if !c.Quick() {
-				for w := 1; w <= 256; w++ {
+				for w := 1; w <= 384; w++ {
 					ws[w] = true
 				}
 			}
@@ -780,16 +780,16 @@ func runRace(c *lib.Ctx, reps, maxN int) {
 
 func run(c *lib.Ctx) {
 	c.Rule("for every leaf count n of the tier (quick 1..600, thorough 1..4096; pairwise distinct leaves) GetMerkleRoot runs with worker counts 1,2,3,16,NumCPU, every count n>>k (+-1) at which the chunk size changes, " +
-		"3 random ones and (thorough) all of 1..256; result compared with Computation and a duplicate-last reference on crypto/sha256; the chunk size in effect is measured from the overwritten prefix of the input slice; " +
+		"3 random ones and (thorough) all of 1..384; result compared with Computation and a duplicate-last reference on crypto/sha256; the chunk size in effect is measured from the overwritten prefix of the input slice; " +
 		"distinct_nontrivial counts distinct (n, measured chunk) pairs on the parallel path, duplicated-tail relatives that were observed to collide with their base, and multi-chain blocks with >=2 child chains; " +
-		"every index's branch (thorough: every index up to n=1536, above that the positions around every odd-sized level + 24 random) is folded back to the root; duplicated-tail relatives up to 3 steps must collide AND be flagged, " +
-		"near misses and all other lists must have pairwise different roots; multi-chain blocks: segmentation, child roots, block root, every tx's two-layer proof; the parallel paths also run under -race with 8 concurrent callers")
+		"every index's branch (thorough: every index up to n=2048, above that the positions around every odd-sized level + 24 random) is folded back to the root; duplicated-tail relatives up to 3 steps must collide AND be flagged, " +
+		"near misses and all other lists must have pairwise different roots; multi-chain blocks: segmentation, child roots, block root, every tx's two-layer proof; the parallel paths also run under -race with 8 concurrent callers; blocks with mixed main/parachain transactions are connected on an in-process node and every transaction's proof from ProcQueryTxMsg is folded to the block's TxHash")
 	c.Assume("SHA-256 collisions do not occur (a reported collision between unrelated lists is taken as a defect of the tree construction)",
-		"getMultiLayerProofs needs a running node's parachain index; its proof construction (GetMerkleBranch over the child's full hashes, then over the child roots) is replayed on CalcMultiLayerMerkleInfo's output")
+		"the bulk of the multi-chain proofs is built the way getMultiLayerProofs builds them (GetMerkleBranch over the child's full hashes, then over the child roots) on CalcMultiLayerMerkleInfo's output; the real ProcQueryTxMsg/getMultiLayerProofs path is driven on an in-process node for a smaller number of blocks")
 	maxN := 600
 	allUpTo := 600
 	if !c.Quick() {
-		maxN, allUpTo = 4096, 1536
+		maxN, allUpTo = 4096, 2048
 	}
 	if s := c.N(100, 100); s != 100 { // VERIF_SCALE shrinks the leaf-count range
 		maxN = maxN * s / 100
@@ -806,10 +806,13 @@ func run(c *lib.Ctx) {
 		runBinding(c, p, maxN)
 	}
 	if only < 0 || (only >= 3000000 && only < 4000000) {
-		runMulti(c, c.N(600, 12000))
+		runMulti(c, c.N(600, 20000))
 	}
-	if only < 0 || only >= 4000000 {
+	if only < 0 || (only >= 4000000 && only < 5000000) {
 		runRace(c, c.N(2, 6), maxN)
+	}
+	if only < 0 || only >= 5000000 {
+		runNode(c, c.N(2, 12), c.N(6, 12))
 	}
 	c.RequireEvents("root_computations", 5000)
 	c.RequireEvents("parallel_path", 2000)
@@ -818,6 +821,7 @@ func run(c *lib.Ctx) {
 	c.RequireEvents("dup_tail_collisions_observed", 500)
 	c.RequireEvents("tx_proofs", 5000)
 	c.RequireEvents("race_root_computations", 100)
+	c.RequireEvents("node_two_layer_proofs", 20)
 }
 
 func init() { lib.RegisterChild("race", raceChild) }
